@@ -28,12 +28,12 @@ ASSUMPTIONS = [
     'an element with an interior + (x+y) passed to create_equation_from_terms may be rejected with an exception but not mis-joined',
 ]
 BOUNDS = {
-    'quick': {'addterm_depth': 3, 'list_len': 3},
-    'thorough': {'addterm_depth': 5, 'list_len': 5},
+    'quick': {'addterm_depth': 3, 'list_len': 3, 'termobj_depth': 4},
+    'thorough': {'addterm_depth': 5, 'list_len': 5, 'termobj_depth': 5},
 }
 
 TERMS = ['x', '+x', '-x', 'y', '-y', '2', '-2.5', 'x*y', '-x*y', 'x/y', '(x)', '(-x)', '-(x)', '-(-x)',
-         '-(x*y)', ' ( x ) ', '2*x', '-y*x']
+         '-(x*y)', ' ( x ) ', '2*x', '-y*x', 'y/x', 'x/2', '-2/x']
 BLOBS = ['x', '-x', 'x+y', 'x-y', '2*x', 'x*y', '(x+y)*2', '0.', '', 'y', '-2.5', 'x/y']
 LEADS = ([('none', None), ('emptylist', None)] + [('blob', b) for b in BLOBS]
          + [('strrhs', b) for b in BLOBS if b != ''] + [('lhs_eq', b) for b in BLOBS if b != ''])
@@ -44,6 +44,60 @@ VALS = [
     {'x': Fraction(-11), 'y': Fraction(5, 13)},
     {'x': Fraction(17, 2), 'y': Fraction(-19)},
 ]
+
+
+# ops of the Term-object exploration: (equation index, pool entry); pool entries 0..2 are Term OBJECTS created once
+# per history and re-used, 3..4 are plain strings
+POOL = ['y', '-y', 'x*y', 'y', '-y']
+OBJ_OPS = [(e, t) for e in (0, 1) for t in range(len(POOL))]
+
+
+def run_termobj(unit, res, dig):
+    depth = unit['depth']
+    for n in range(1, depth + 1):
+        for rest in itertools.product(range(len(OBJ_OPS)), repeat=n - 1):
+            hist = [unit['first']] + list(rest)
+            dig.add(('termobj', tuple(hist)))
+            v = check_termobj(hist)
+            res['evaluations'] += 1
+            res['transitions'] += len(hist)
+            res['states'] += 1
+            res['traces'] += 1
+            objs = [OBJ_OPS[i][1] for i in hist if OBJ_OPS[i][1] < 3]
+            if len(objs) != len(set(objs)):
+                res['nontrivial'] += 1
+            if v:
+                res['violations'].append(v)
+                core.bump(res['outcomes'], 'termobj-violation')
+            else:
+                core.bump(res['outcomes'], 'termobj-ok-len%d' % n)
+    res['max_depth'] = max(res['max_depth'], depth)
+    res['samples'].append({'term-object history (equation, pool entry)': [list(OBJ_OPS[i]) for i in hist]})
+
+
+def check_termobj(hist):
+    """Replay one history from scratch on two fresh equations with a fresh pool of Term objects."""
+    case = {'kind': 'termobj', 'history': list(hist)}
+    eqs = [Equation('p', rhs=[Term('x', is_blob=True)]), Equation('q')]
+    refs = [values('x'), (Fraction(0),) * 3]
+    pool = [Term(POOL[0]), Term(POOL[1]), Term(POOL[2]), POOL[3], POOL[4]]
+    for step, i in enumerate(hist):
+        e, t = OBJ_OPS[i]
+        try:
+            eqs[e].AddTerm(pool[t])
+        except Exception as ex:
+            return core.violation('addterm-raises:%s' % type(ex).__name__, 'AddTerm(Term object %r) raised %r' % (POOL[t], ex), case)
+        refs[e] = tuple(a + b for a, b in zip(refs[e], values(POOL[t])))
+        for j in (0, 1):
+            try:
+                got = values(eqs[j].RHS())
+            except Exception as ex:
+                return core.violation('invalid-expression', 'RHS %r invalid: %r' % (eqs[j].RHS(), ex), case)
+            if got != refs[j]:
+                return core.violation('value-lost:shared-term-object',
+                                      'after step %d equation %d renders %r = %s, expected %s' % (
+                                          step + 1, j, eqs[j].RHS(), [str(x) for x in got], [str(x) for x in refs[j]]), case)
+    return None
 
 
 def value(expr, v):
@@ -136,6 +190,9 @@ def units(tier):
     for first in LIST_ELEMS:
         out.append({'kind': 'list', 'first': first, 'maxlen': n})
     out.append({'kind': 'list0'})
+    # Term objects (instead of strings) handed to AddTerm, re-used within and across two equations
+    for first in range(len(OBJ_OPS)):
+        out.append({'kind': 'termobj', 'first': first, 'depth': BOUNDS[tier]['termobj_depth']})
     return out
 
 
@@ -146,6 +203,8 @@ def run_unit(unit, tier):
         run_addterm(unit, BOUNDS[tier]['addterm_depth'], res, dig)
     elif unit['kind'] == 'list':
         run_lists(unit, res, dig)
+    elif unit['kind'] == 'termobj':
+        run_termobj(unit, res, dig)
     else:
         r = create_equation_from_terms([])
         res['evaluations'] += 1
@@ -254,6 +313,9 @@ def check_list(terms):
 
 
 def replay(case):
+    if case['kind'] == 'termobj':
+        v = check_termobj(case['history'])
+        return [v] if v else []
     if case['kind'] == 'list':
         v = check_list(list(case['terms']))
         return [v] if v and v != 'rejected' else []
